@@ -286,6 +286,17 @@ pub fn run_c06(r: &mut Report) {
         r.case("expired-earlier-within-the-same-second", json!({"inputs": n}), "Err", format!("{:?}", bad), bad.is_empty());
     }
     // the verifier's local time zone has no say: the same grid in child processes started under zones east and west of UTC
+    // .. nor has anything else in the process environment that tools use to pin or fake the time
+    for (var, val) in [("SOURCE_DATE_EPOCH", "0"), ("SOURCE_DATE_EPOCH", "1500000000"), ("SOURCE_DATE_EPOCH", "4102444800"), ("FAKETIME", "2001-01-01 00:00:00"), ("FAKETIME", "+10y"),
+                       ("IN_TOTO_NOW", "2001-01-01T00:00:00Z"), ("LC_ALL", "tr_TR.UTF-8"), ("LANG", "C"), ("TZDIR", "/nonexistent")] {
+        let out = std::process::Command::new(std::env::current_exe().unwrap()).arg("_EXPIRY_ZONES").env(var, val).output();
+        let (ok, obs) = match out {
+            Ok(o) => { let txt = String::from_utf8_lossy(&o.stdout).to_string();
+                let v: Option<serde_json::Value> = txt.lines().rev().find_map(|l| serde_json::from_str(l).ok());
+                match v { Some(v) if o.status.success() => (v["bad"].as_array().map(|a| a.is_empty()).unwrap_or(false), v["bad"].to_string()), _ => (false, format!("status {:?}: {}", o.status, txt.chars().take(300).collect::<String>())) } }
+            Err(e) => (false, format!("cannot start child: {}", e)) };
+        r.case("expiry-whatever-the-process-environment", json!({"variable": var, "value": val}), "expired layouts (root and delegated) rejected, unexpired accepted", obs, ok);
+    }
     for tz in ["UTC0", "JST-9", "EST5", "<+14>-14", "<-12>12", "NPT-5:45", "Asia/Tokyo", "America/Los_Angeles"] {
         let out = std::process::Command::new(std::env::current_exe().unwrap()).arg("_EXPIRY_ZONES").env("TZ", tz).output();
         let (ok, obs) = match out {
